@@ -237,3 +237,57 @@ def text_codec(ctx, rule):
                     ctx.fail(rule, f, c, 'the 3200-byte textual header is converted by `%s`: %s, so text[0] is not 3200 bytes '
                              '(40 cards of 80 columns) for a header holding such a character' % (U(c)[:70], problem), line=c.lineno)
     ctx.floor(rule, 1, 'character conversions of the textual header')
+
+
+def attributes_kind(ctx, rule):
+    """segyio's ``attributes(field)`` is an object whose subscript always yields an array: an int selects a length-1 array
+    (``attributes(f)[i]`` has shape (1,)).  The emulation hands out whatever the callable bound to ``attributes`` returns;
+    if that is a bare numpy array, an int subscript yields a scalar and an out-of-range int raises."""
+    P, G = ctx.P, ctx.G
+    ctx.rule(rule, 'attributes(field) returns an object that indexes like segyio\'s (an int selects a length-1 array)')
+    em = P.func('segyio_emulator.SegyioEmulator.__init__')
+    binds = [a for a in ast.walk(em.node) if isinstance(a, ast.Assign) and len(a.targets) == 1 and U(a.targets[0]) == 'self.attributes']
+    if len(binds) != 1:
+        raise AnalysisError('SegyioEmulator.__init__ binds self.attributes %d times' % len(binds))
+    v = binds[0].value
+    target = None
+    if isinstance(v, ast.Attribute) and isinstance(v.value, ast.Name) and v.value.id == 'self':
+        target = em.cls.find_method(v.attr) if em.cls is not None else None
+        if target is None:
+            for c in RF.reader_classes(P):
+                if v.attr in c.methods:
+                    target = c.methods[v.attr]
+    rets = []
+    if target is not None:
+        rets = [r.value for r in ast.walk(target.node) if isinstance(r, ast.Return) and r.value is not None]
+        where = target
+    elif isinstance(v, ast.Lambda):
+        rets = [v.body]
+        where = em
+    if not rets:
+        raise AnalysisError('cannot resolve the callable bound to self.attributes (`%s`)' % U(v)[:60])
+
+    def kind(e, f, depth=0):
+        if isinstance(e, ast.Call):
+            r = P.resolve_name(f.module, U(e.func))
+            if hasattr(r, 'methods'):
+                return 'wrapped' if r.find_method('__getitem__') is not None else 'object'
+            if U(e.func).split('.')[0] in ('np', 'numpy'):
+                return 'array'
+            return None
+        if isinstance(e, ast.Subscript):
+            return 'array' if VARIANT_STORE in U(e.value) else None
+        if isinstance(e, ast.Name) and depth < 2:
+            ds = [a for a in ast.walk(f.node) if isinstance(a, ast.Assign) and len(a.targets) == 1 and U(a.targets[0]) == e.id]
+            ks = {kind(a.value, f, depth + 1) for a in ds}
+            return ks.pop() if len(ks) == 1 else None
+        return None
+    kinds = [kind(e, where) for e in rets]
+    if any(k is None for k in kinds):
+        raise AnalysisError('%s: cannot classify what attributes() returns (`%s`)' % (where.qualname, U(rets[kinds.index(None)])[:60]))
+    if all(k == 'wrapped' for k in kinds):
+        ctx.ok(rule, em, binds[0], 'attributes() returns an accessor object with its own subscript')
+    else:
+        ctx.fail(rule, em, binds[0], 'attributes(field) hands out a bare numpy array (%s returns `%s`): attributes(f)[i] with an int '
+                 'is a scalar where segyio gives an array of shape (1,), and an out-of-range int raises where segyio gives '
+                 'an empty array' % (where.qualname, U(rets[0])[:50]), line=binds[0].lineno)
